@@ -87,6 +87,7 @@ class FunctionVC:
         self.I = Interp(src, chips=chips, cuts=cuts, hooks=hooks, unwind=unwind)
         self.with_state = with_state
         self.obligations = []
+        self.probed = set()
         self.notes = []
         if configure is not None:
             configure(self.I)
@@ -196,7 +197,7 @@ class FunctionVC:
         # ensures clauses on the normal path
         if not ctx.dead:
             for name, f in ccls.clauses:
-                if name in probe_names:
+                if name in probe_names or name in self.probed or name in getattr(ccls, 'probe_only', ()):
                     continue
                 kind, prop, note = f._clause
                 t, sub, defs = self.eval_clause(name, ctx, bindings)
@@ -250,6 +251,18 @@ class FunctionVC:
         for ob in self.obligations:
             ob.hyp = And_(ax, ob.hyp)
         return self.obligations
+
+    def probe(self, ctx, names, extra, path):
+        """evaluate clauses at a program point (used by drivers' cuts): one obligation per clause"""
+        b2 = dict(self.bindings)
+        b2.update(extra)
+        for nm in names:
+            f = dict(self.ccls.clauses)[nm]
+            kind, prop, note = f._clause
+            t, sub, defs = self.eval_clause(nm, ctx, b2)
+            self.add(Obligation(self.oid(nm), kind, And_(ctx.pc, *defs), t, prop or self.prop,
+                                meta={'clause': C.clause_source_name(self.ccls, nm), 'path': path}))
+            self.probed.add(nm)
 
     def add(self, ob):
         if ob.label == 'D/shape' and getattr(self.ccls, 'label', None):
